@@ -185,8 +185,8 @@ def run(ck, prog, tier, load):
         ok = False
         for m in mins:
             sat = e_calls(m, r"saturating_sub$|checked_sub$")
-            ok = ok or (bool(sat) and any(k[2] == 65536 for k in e_consts(m)) and any(e_has_field(s_, r"\.size$") or any(r[2] == "size" for r in e_roots(s_) if r[0] in ("var", "phi")) for s_ in sat) and any(e_has_field(s_, r"\.counter$") or any(r[2] == "counter" for r in e_roots(s_) if r[0] in ("var", "phi")) for s_ in sat))
-        ck.ob("C16-d.read-size-clamped", "poll_next", ok, pn, bb, "the number of bytes requested from the file is min(size.saturating_sub(counter), 65536), computed for this read: %s" % short(args, 4))
+            ok = ok or (bool(sat) and any(k[2] is not None and k[2] > 0 for k in e_consts(m)) and any(e_has_field(s_, r"\.size$") for s_ in sat) and any(e_has_field(s_, r"\.counter$") for s_ in sat))
+        ck.ob("C16-d.read-size-clamped", "poll_next", ok, pn, bb, "the number of bytes requested from the file is min(size.saturating_sub(counter), CHUNK), computed for this read: %s" % short(args, 4))
         # computed per read: the min() call lies in the same iteration (dominated by the File-state arm)
         fresh = all(any(c[0] == "discr" and lab == "File" for c, lab, a in pn.guards(m[3])) for m in mins) if mins else False
         ck.ob("C16-d.read-size-fresh", "poll_next", fresh, pn, bb, "that clamp is evaluated inside the read arm (not hoisted to construction time)")
